@@ -164,6 +164,40 @@ func TestC19_SmallScope(t *testing.T) {
 	c19dec.rec.Extra("small_scope", fmt.Sprintf("all byte strings over alphabet %x of length 0..%d", alpha, maxLen))
 }
 
+// TestC19_PointerShapes: closed rings of 1..40 pointers (bare, behind a name, entered from a pointer), chains of
+// 1..40 pointers ending on a name, and a pointer to itself — termination and verdict.
+func TestC19_PointerShapes(t *testing.T) {
+	for k := 1; k <= 40; k++ {
+		for _, prefix := range [][]byte{nil, []byte("\x03foo\x00"), []byte("\x01a")} {
+			base := len(prefix)
+			ring := append([]byte{}, prefix...)
+			for i := 0; i < k; i++ {
+				next := base + 2*((i+1)%k)
+				ring = append(ring, 0xC0|byte(next>>8), byte(next))
+			}
+			c19dec.one(t, obs.Hex(ring))
+			// a chain of k pointers, each to the next, ending on a terminated name
+			chain := append([]byte{}, prefix...)
+			for i := 0; i < k; i++ {
+				next := base + 2*(i+1)
+				chain = append(chain, 0xC0|byte(next>>8), byte(next))
+			}
+			chain = append(chain, 3, 'e', 'n', 'd', 0)
+			c19dec.one(t, obs.Hex(chain))
+			// backward chain: names first, then pointers to pointers
+			back := append(append([]byte{}, prefix...), 3, 'e', 'n', 'd', 0)
+			tgt := len(prefix)
+			for i := 0; i < k; i++ {
+				at := len(back)
+				back = append(back, 0xC0|byte(tgt>>8), byte(tgt))
+				tgt = at
+			}
+			c19dec.one(t, obs.Hex(back))
+		}
+	}
+	c19dec.rec.Class("pointer rings and chains")
+}
+
 func TestC19_DecodeRapid(t *testing.T) {
 	c19dec.rapidCheck(t, rapid.Custom(func(rt *rapid.T) obs.Hex {
 		return gen.LabelWire(rapid.IntRange(0, 2).Draw(rt, "hostile") != 0).Draw(rt, "wire")
